@@ -5,6 +5,7 @@ import ClaripyProofs.Lemmas.VSA.Members
 import ClaripyProofs.Lemmas.VSA.MinMax
 import ClaripyProofs.Lemmas.VSA.EvalExact
 import ClaripyProofs.Lemmas.VSA.MeetFinal
+import ClaripyProofs.Lemmas.VSA.AlignedMul
 /-!
 # C22 — joins, meets, widening and queries agree with the members
 
@@ -191,6 +192,46 @@ theorem meet_nonnormal_unsound : ¬ MeetSound SI.intersection bothAligned := by
   have := h { bits := 4, stride := 3, lb := 2, ub := 11 } { bits := 4, stride := 1, lb := 5, ub := 4 }
     (SI.new 4 3 5 11) 2 (by decide) (by decide) (by decide) (by unfold bothAligned; decide) (by decide) (by decide) (by decide)
   exact absurd this (by decide)
+
+/-! ## alignment (the upper bound is a member) under joins, meets and widening -/
+
+/-- the joins keep alignment: `pseudo_join` (both settings), `least_upper_bound` (any arity), `union` -/
+theorem C22_join_aligned (w : Nat) :
+    (∀ (a b : SI) (smart : Bool), a.WF ∧ a.bits = w → b.WF ∧ b.bits = w → a.Aligned → b.Aligned →
+      (pseudoJoin a b smart).Aligned) ∧
+    (∀ (l : List SI) (r : SI), (∀ s, s ∈ l → (s.WF ∧ s.bits = w) ∧ s.Aligned) → leastUpperBound l = .ok r → r.Aligned) ∧
+    (∀ (a b r : SI), a.WF ∧ a.bits = w → b.WF ∧ b.bits = w → a.Aligned → b.Aligned → a.union b = .ok r → r.Aligned) :=
+  ⟨fun a b smart ha hb ala alb => pseudoJoin_aligned a b smart ha.1 hb.1 (by rw [ha.2, hb.2]) ala alb,
+   fun l r hP h => lub_aligned w l r hP h,
+   fun a b r ha hb ala alb h => union_aligned w a b r ha hb ala alb h⟩
+
+/-- every partial result of `_multi_valued_intersection` is aligned WHATEVER the operands are (it ends at the last multiple
+of the new stride), so `intersection` never hands an unaligned interval on -/
+theorem C22_meet_result_aligned (w : Nat) (a b : SI) (ha : a.WF ∧ a.bits = w) (hb : b.WF ∧ b.bits = w)
+    (hab : a.bottom = false) (hbb : b.bottom = false) :
+    (∀ l, a.multiMeet b = .ok l → ∀ r, r ∈ l → r.Aligned) ∧
+    (alignedNormal a b → ∀ r, a.intersection b = .ok r → r.Aligned) :=
+  ⟨fun l h => multiMeet_aligned w a b ha hb hab hbb l h,
+   fun hg r h => meet_aligned w a b r ha hb hab hbb hg.1 hg.2.1 hg.2.2.1 hg.2.2.2 h⟩
+
+/-- full statement for `widen` -/
+def C22_widen_keeps_aligned : Prop :=
+  ∀ (a b r : SI), a.WF → b.WF → a.bits = b.bits → a.Aligned → b.Aligned → a.widen b = .ok r → r.Aligned
+
+/-- `widen` is the one interval operation that turns aligned operands into an unaligned result: `widen(3[1,0], {0}) = 3[2,0]`
+at 2 bits (`3[1,0]` is `{1,0}`; the result's upper bound 0 is at distance 2 from 2).  On the real code every such instance found
+(widths ≤ 4) is at the same time an instance of the open `C22/widen/unsound/…` findings. -/
+theorem widen_breaks_alignment : ¬ C22_widen_keeps_aligned := by
+  intro h
+  have := h (SI.new 2 3 1 0) (SI.new 2 0 0 0) { bits := 2, stride := 3, lb := 2, ub := 0 }
+    (by decide) (by decide) (by decide) (by decide) (by decide) (by decide)
+  exact absurd this (by decide)
+
+/-- non-vacuity: joins of aligned wrapping operands -/
+example : (SI.new 4 3 14 4).Aligned ∧ (SI.new 4 2 5 9).Aligned ∧
+    (∃ r, SI.union (SI.new 4 3 14 4) (SI.new 4 2 5 9) = .ok r ∧ r.Aligned) ∧
+    (∃ r, leastUpperBound [SI.new 4 3 14 4, SI.new 4 2 5 9, SI.new 4 0 11 11] = .ok r ∧ r.Aligned) := by
+  refine ⟨by decide, by decide, ⟨_, rfl, by decide⟩, ⟨_, rfl, by decide⟩⟩
 
 /-! ## max — wrong when the upper bound is not a member (finding C22-max-unaligned, D20) -/
 
